@@ -26,7 +26,9 @@ func Catalogue(native bool) []val.V {
 	for _, x := range []float64{0, math.Copysign(0, -1), 0.5, 1, -1, 9.223372036854775807e18, 1.8446744073709552e19, math.MaxFloat64, math.Inf(1), math.Inf(-1), math.NaN()} {
 		add(val.Float("float64", x))
 	}
-	for _, s := range []string{"", "0", "1", "-1", "1.0", "1e3", "9223372036854775808", "NaN", "Inf", "true", "yes", "abc", "5m30s", "1kB", "(", "\xff\xfe", "日本語", "null", "{}"} {
+	for _, s := range []string{"", "0", "1", "-1", "1.0", "1e3", "9223372036854775808", "NaN", "Inf", "true", "yes", "abc", "5m30s", "1kB", "(", "\xff\xfe", "日本語", "null", "{}",
+		// fragments of a number or of a unit sentence: a sign, a point, an exponent marker, blanks, a unit name without a count
+		"-", "+", ".", "e", " ", " - ", "\t", "\x00", "-.", "+e", "s", "kB", "1e", "0x", "1_0", "--1", "1m-1s", "5 m", string(make([]byte, 3))} {
 		add(val.Str(s))
 	}
 	add(val.Int("int", 1), val.Int("int8", -128), val.Int("int16", 1), val.Int("int32", 1), val.Uint("uint", 1), val.Uint("uint8", 255), val.Uint("uint16", 1), val.Uint("uint32", 1))
